@@ -41,7 +41,7 @@ def datasets(tier, rng):
     for n in range(1, nmax + 1):
         combos = list(itertools.product(NUMDOM, repeat=n))
         if len(combos) > 700:
-            combos = rng.sample(combos, 1500 if tier == 'quick' else 6000)
+            combos = rng.sample(combos, min(len(combos), 1500 if tier == 'quick' else 6000))
         out += [[{'t': 'none', 'v': 0} if x is None else {'t': 'num', 'v': x} for x in c] for c in combos]
     for n in range(1, smax + 1):
         out += [[{'t': 'none', 'v': 0} if x is None else {'t': 'str', 'v': x} for x in c]
